@@ -108,5 +108,14 @@ CLAIMED['C13'] = {
     'note': 'Advertised sets are concrete (4 sets), versions symbolic; relies on C14 (order) and C03 (ratings == rows); <10 warnings per row checked over the table; known finding: gss-* never recommended for removal.',
 }
 
+CLAIMED['C17'] = {
+    'engines': 'TAB+z3',
+    'technique': 'tables of the current tree extracted after import and asserted into z3 as finite-domain facts (String equalities, an uninterpreted failure-count function); negated consistency formulas checked unsat, sat models name the offending entry',
+    'text': 'Exhaustive over the current tables: every name referenced by a built-in policy, the host-key probe table, the DH attack tables and the AST-harvested probe maps is a key of '
+            'the right category; no built-in policy names an algorithm with a failure; every entry containing a branded primitive token carries a failure; every row has the '
+            'documented shape; a peer configured per each built-in policy renders without a [fail] line (real output()).',
+    'note': 'The bound is the tables as they stand; brand tokens are a candidate list filtered by the table itself; known findings: SSH-1 table entries 3des/blowfish/idea carry no failure.',
+}
+
 NOT_APPLICABLE = {
 }
